@@ -640,7 +640,8 @@ func (i *Iter) Int() (int64, error) {
 			return 0, errors.New("corrupt input: expected float, but no more values on tape")
 		}
 		v := math.Float64frombits(i.tape.Tape[i.off])
-		if v > math.MaxInt64 {
+		// math.MaxInt64 is not representable as float64 and rounds up to 2^63, which overflows.
+		if v >= math.MaxInt64 {
 			return 0, errors.New("float value overflows int64")
 		}
 		if v < math.MinInt64 {
@@ -690,7 +691,8 @@ func (i *Iter) Uint() (uint64, error) {
 			return 0, errors.New("corrupt input: expected float, but no more values on tape")
 		}
 		v := math.Float64frombits(i.tape.Tape[i.off])
-		if v > math.MaxUint64 {
+		// math.MaxUint64 is not representable as float64 and rounds up to 2^64, which overflows.
+		if v >= math.MaxUint64 {
 			return 0, errors.New("float value overflows uint64")
 		}
 		if v < 0 {
